@@ -239,15 +239,22 @@ def gen_tape(rng, n, rows, cols, short=False):
 
 def gen_case(rng, max_side=6, combo=None):
     """a random well-formed reset description (without "which")"""
-    if rng.random() < 0.35:
+    big = rng.random() < 0.05          # what the small scopes never reach: 10+ rows / columns / agents / encodings
+    if big:
+        rows, cols = rng.randint(9, 13), rng.randint(7, 12)
+    elif rng.random() < 0.35:
         rows, cols = rng.randint(1, 3), rng.randint(1, 3)
     else:
         rows, cols = rng.randint(1, max_side), rng.randint(1, max_side)
     cap = rows * cols
     encs = rng.choice([[1], [1, 2], [1, 2], [1, 2, 3], [1, 2, 3], [2, 3], [1, 3]])
+    if big:
+        encs = list(range(1, rng.randint(4, 12)))
     overlap = gridw.gen_overlap(rng, encs)
     r = rng.random()
-    if r < 0.45:
+    if big:
+        n = rng.randint(10, 24)
+    elif r < 0.45:
         n = rng.randint(1, min(cap + 2, 5))
     elif r < 0.75:
         n = rng.randint(1, min(cap + 2, 12))
